@@ -42,6 +42,9 @@ type Case struct {
 	// Offset: the whole network and the query points were moved away from the origin by this much (per axis, in the
 	// direction of the quadrant); documentation of the generator's choice, the coordinates above include it
 	Offset float64 `json:"offset,omitempty"`
+	// Micro: the last node and the last link are a node 1.2 identification tolerances from a within-tolerance spelling of
+	// another node, and the link between the two
+	Micro bool `json:"micro,omitempty"`
 }
 
 type EarlyQ struct {
@@ -143,6 +146,35 @@ func gen(t *rapid.T) Case {
 	if len(c.Links) == 0 {
 		addLink(0, 1)
 	}
+	micro := -1
+	if !jitter && rapid.IntRange(0, 7).Draw(t, "microlink") == 3 {
+		// a very short link: a new node N only 1.2 times the identification tolerance (in x) from a point E' that is a
+		// within-tolerance spelling of an existing node E (a little less than the tolerance off in x AND in y, so farther
+		// from E than from N as the crow flies), joined to it by the link N-E'. The link has to end at E.
+		var cand []int
+		for i, p := range c.Nodes {
+			if inLinks := has; inLinks != nil && math.Abs(float64(p[1])) >= 0.9*math.Abs(float64(p[0])) {
+				cand = append(cand, i)
+			}
+		}
+		if len(cand) > 0 {
+			e := cand[rapid.IntRange(0, len(cand)-1).Draw(t, "microat")]
+			used := false
+			for _, l := range c.Links {
+				if l.A == e || l.B == e {
+					used = true
+				}
+			}
+			if used {
+				E := c.Nodes[e]
+				c.JitUnit = 1e-10
+				c.Nodes = append(c.Nodes, vkit.MkP(float64(E[0])*(1+4.2e-9), float64(E[1])*(1+18*1e-10)))
+				micro = len(c.Nodes) - 1
+				c.Links = append(c.Links, Link{A: micro, B: e, Speed: 1, JitB: [2]int{18, 18}})
+				c.Micro = true
+			}
+		}
+	}
 	c.Time = rapid.Bool().Draw(t, "time")
 	q := func(lbl string) vkit.P2 {
 		if rapid.Bool().Draw(t, lbl+"near") {
@@ -152,7 +184,10 @@ func gen(t *rapid.T) Case {
 		return vkit.MkP(sx*rapid.Float64Range(5, float64(15+2*w)).Draw(t, lbl+"x"), sy*rapid.Float64Range(5, float64(15+2*w)).Draw(t, lbl+"y"))
 	}
 	c.From, c.To = q("from"), q("to")
-	if len(c.Links) >= 1 && rapid.IntRange(0, 7).Draw(t, "bisector") == 3 {
+	if micro >= 0 {
+		c.From = c.Nodes[micro] // start at the new end of the very short link
+	}
+	if len(c.Links) >= 1 && micro < 0 && rapid.IntRange(0, 7).Draw(t, "bisector") == 3 {
 		// two query points a hair apart (1e-10 relative, i.e. "the same point" to the library's point comparison) on
 		// either side of the perpendicular bisector of a link: their nearest nodes are the two ends of the link
 		l := c.Links[rapid.IntRange(0, len(c.Links)-1).Draw(t, "bislink")]
@@ -170,7 +205,7 @@ func gen(t *rapid.T) Case {
 			c.Early = append(c.Early, EarlyQ{After: rapid.IntRange(1, len(c.Links)-1).Draw(t, "after"), From: q("efrom"), To: q("eto")})
 		}
 	}
-	if !jitter && !c.Bisector && (rapid.IntRange(0, 4).Draw(t, "faraway") == 2 || grid && rapid.Bool().Draw(t, "gridfar")) {
+	if !jitter && !c.Bisector && !c.Micro && (rapid.IntRange(0, 4).Draw(t, "faraway") == 2 || grid && rapid.Bool().Draw(t, "gridfar")) {
 		// the same network far from the origin: coordinates of 1e5 to 1e8 with links of length 2 to 30 (map coordinates in
 		// metres are like that). Only with bit-identical link ends: the library's relative tolerance for "the same point"
 		// is an absolute 0.1 out there.
@@ -374,11 +409,31 @@ func run(c Case) (v vkit.Verdict) {
 		if len(piece) < 2 {
 			return v.Fail("route piece %d has %d vertices", k, len(piece))
 		}
-		a, okA := nodeOf(piece[0])
-		b, okB := nodeOf(piece[len(piece)-1])
-		li, okL := byEnds[lk{a, b}]
-		if !okA || !okB || !okL {
-			return v.Fail("route piece %d is not one of the links", k)
+		// a piece is a link's own line string, vertex for vertex (nodes that are closer together than the 1e-6 of nodeOf
+		// are told apart that way); otherwise by its end nodes
+		li, okL := -1, false
+		for i, l := range c.Links {
+			if ls := lineOf(c, l); len(ls) == len(piece) {
+				same := true
+				for j := range ls {
+					if ls[j] != piece[j] {
+						same = false
+						break
+					}
+				}
+				if same {
+					li, okL = i, true
+					break
+				}
+			}
+		}
+		if !okL {
+			a, okA := nodeOf(piece[0])
+			b, okB := nodeOf(piece[len(piece)-1])
+			li, okL = byEnds[lk{a, b}]
+			if !okA || !okB || !okL {
+				return v.Fail("route piece %d is not one of the links", k)
+			}
 		}
 		chain = append(chain, li)
 		sumD += lens[li]
@@ -394,6 +449,9 @@ func run(c Case) (v vkit.Verdict) {
 	v.Class(fmt.Sprintf("time_%v", c.Time))
 	if c.Offset != 0 {
 		v.Class(fmt.Sprintf("network_%g_from_the_origin", c.Offset))
+	}
+	if c.Micro {
+		v.Class("link_barely_longer_than_the_identification_tolerance")
 	}
 	// some start candidate must make the chain a walk to an end candidate with optimal cost
 	var why string
